@@ -1,5 +1,6 @@
 import IppModel.Props.C17
 #print axioms Ipp.Props.C17.error_states_pin
+#print axioms Ipp.Props.C17.error_states_contains
 #print axioms Ipp.Props.C17.names_pin
 #print axioms Ipp.Props.C17.ready_iff
 #print axioms Ipp.Props.C17.error_iff_not_success
